@@ -90,7 +90,10 @@ func NewGoroutineTaskManager(recordLen int, minimumRequiredPerCore int, cpuNum i
 }
 
 func (m *GoroutineTaskManager) HasError() bool {
-	return m.err != nil
+	m.grTaskMutex.Lock()
+	hasError := m.err != nil
+	m.grTaskMutex.Unlock()
+	return hasError
 }
 
 func (m *GoroutineTaskManager) SetError(e error) {
@@ -102,7 +105,10 @@ func (m *GoroutineTaskManager) SetError(e error) {
 }
 
 func (m *GoroutineTaskManager) Err() error {
-	return m.err
+	m.grTaskMutex.Lock()
+	err := m.err
+	m.grTaskMutex.Unlock()
+	return err
 }
 
 func (m *GoroutineTaskManager) RecordRange(routineIndex int) (int, int) {
